@@ -174,6 +174,25 @@ META["C12"] = dict(
     assumptions=COMMON_ASSUME + ["lmfit.minimize returns parameters within [min, max], leaves vary=False parameters untouched and enforces expr constraints"],
 )
 
+META["C19"] = dict(
+    level="other",
+    technique="data-flow (EUF) contracts on the real CLI command functions: run by CPython on uninterpreted option terms with recording stand-ins for the API and marker strings for tables, so that forwarding is checked argument for argument; in-process CLI runs against the API as labelled bounded stand-in",
+    level_text="Proved for all option values: apply_filters calls low_pass/high_pass/set_mask with exactly the given cut-offs/indices, in order and only when requested; `parse` prints format_text(data.to_dataframe(), args) for each data set after filtering; `fit` calls fit_circuit(parse_cdc(args.circuit), data=..., method/weight/max_nfev/num_procs/timeout = the same-named options) 1+num_refinements times and prints the parameter and statistics tables of the last fit; `circuit --simulate` simulates each parsed circuit on _interpolate([max, min], num_per_decade); get_mock_data(s) is generate_mock_data(*_parse_identity(s)). _parse_identity's string handling, argparse wiring, output files and the drt command are bounded.",
+    level_note="plotting and file output stand-ins; argparse itself and string parsing of mock specifiers only bounded",
+    explanation="Obligations at every recorded API call / printed string of cli/utility.py:apply_filters,get_mock_data; cli/parse.py:command; cli/fit.py:command; cli/circuit.py:simulate_spectra. Bounded: in-process pyimpspec.cli.main runs compared cell by cell with the API.",
+    trusted_base=["contracts/dataflow.py", "recording stand-ins"],
+    assumptions=COMMON_ASSUME + ["plot functions do not mutate results"],
+)
+META["C20"] = dict(
+    level="other",
+    technique="contracts on the real to_sympy functions (Element: every key substituted / renamed; Series/Parallel: composition law on symbolic values; per-class equation symbols) executed with recording stand-ins and symbolic values, discharged by z3 / ring normaliser; LaTeX, CircuiTikZ, schemdraw and to_stack over enumerated circuits are a labelled bounded stand-in",
+    level_text="Proved: Element.to_sympy substitutes exactly the element's parameter keys (by their values, oo/-oo for infinities) or renames them '<key>_<label|identifier>'; every registered equation mentions only parameters and f; Series/Parallel.to_sympy build the sum / reciprocal-sum of their children's expressions with the shared identifier map - hence after substitution only f is free and otherwise there is one variable per (element, parameter), and the symbolic expression obeys the same law as the numeric impedance. That the diagram exporters succeed and list every element is only explored (bounded); see the known findings.",
+    level_note="sympy.subs/latex and the diagram back ends are outside the verifier; identifier uniqueness from C16",
+    explanation="Obligations from base.py:Element.to_sympy, series.py/parallel.py:to_sympy, registry equations. Bounded: all topologies up to a bound, all element types, labels, containers through to_sympy/to_latex/to_circuitikz/to_drawing/to_stack.",
+    trusted_base=["pyvc/overload.py", "contracts/dataflow.py"],
+    assumptions=COMMON_ASSUME + ["sympy.Expr.subs replaces exactly the given names"],
+)
+
 NOT_BUILT = "check not built yet in this session (planned, see DESIGN.md section 3)"
 NOT_APPLICABLE = {
     "C10": "statistical calibration over an RNG distribution and heuristic optimisers: no pre/postcondition within reach of a deductive verifier implies it (DESIGN.md C10); sampling would be a different technique family",
